@@ -73,9 +73,10 @@ pub fn worker_handle(line: &str) -> String {
                     format!("{}{}", req_line(&r, &warns), if same { "" } else { " ENTRYPOINTS-DIFFER" })
                 }
                 Err(e) => {
-                    let disp = std::panic::catch_unwind(std::panic::AssertUnwindSafe(|| e.to_string())).is_ok();
+                    let rendered = std::panic::catch_unwind(std::panic::AssertUnwindSafe(|| e.to_string())).ok();
+                    let disp = rendered.is_some();
                     let boundary = e.start <= text.len() && text.is_char_boundary(e.start);
-                    format!("err {} {} {} disp={} boundary={}", err_kind(&e), e.start, e.len, disp as u8, boundary as u8)
+                    format!("err {} {} {} disp={} boundary={}{}", err_kind(&e), e.start, e.len, disp as u8, boundary as u8, ul_field(rendered))
                 }
             }
         }
@@ -196,6 +197,15 @@ pub fn req_case(out: &mut Out, w: &mut Worker, rc: &mut ReqCases, prop: &str, te
     } else if ans.starts_with("err ") {
         out.stat(&format!("req.err_{}", ans.split(' ').nth(1).unwrap_or("?")));
         if ans.contains("disp=0") { out.oracle_fail("C06", "the returned error cannot be formatted with Display (panic)", input.clone()); }
+        if prop == "C06" {
+            if let Some((line, ul)) = errdisp_case(text, &ans, 2) {
+                out.evaluations += 1;
+                rc.lines.push(line);
+                rc.envs.push(vars.to_vec());
+                out.impl_out.push(ul);
+                out.stat("errdisp.cases");
+            }
+        }
         if ans.contains("boundary=0") { out.oracle_fail("C06", "the error span does not start on a char boundary inside the input", input.clone()); }
     } else {
         out.stat("req.ok");
@@ -458,7 +468,7 @@ pub fn run(out: &mut Out, tier: &str, seed: u64, prop: &str) {
     }
     // ---- C18: where the URL ends, verbatim text, variable expansion --------------------------------
     if prop == "C18" {
-        let alphabet = ['x', ';', '#', ' ', '\n'];
+        let alphabet = ['x', ';', '#', ' ', '\n', '\t'];
         let max_len = if big { 5 } else { 4 };
         let mut tails: Vec<String> = vec![String::new()];
         let mut cur: Vec<String> = vec![String::new()];
@@ -703,7 +713,20 @@ fn url_rule_oracle(out: &mut Out, text: &str, after_at: &str, ans: &str, vars: &
             Err(_) => out.oracle_fail("C18", "accepted although the expanded text is not a URL", input.clone()),
         }
         out.stat("c18.accepted");
-    } else { out.stat("c18.rejected"); }
+    } else {
+        out.stat("c18.rejected");
+        // a rejection needs a reason the rule names: the expanded text is not a URL, what follows the URL is
+        // not `; marker` / nothing, or (F20) the parsed URL ends in `;` / `#` and a marker follows
+        apply_env(vars);
+        let expanded = expand_spec(url, vars);
+        let rest = after_at[end..].trim();
+        let parsed = url::Url::parse(&expanded);
+        let rest_ok = rest.is_empty() || (rest.starts_with(';') && MarkerTree::from_str(&rest[1..]).is_ok());
+        let f20 = !rest.is_empty() && parsed.as_ref().map(|u| { let t = u.to_string(); t.ends_with(';') || t.ends_with('#') }).unwrap_or(false);
+        if !url.is_empty() && parsed.is_ok() && rest_ok && !f20 && !ans.starts_with("panic") {
+            out.oracle_fail("C18", &format!("a URL that ends at whitespace followed by `;`, `#` or the end, with a valid remainder, is rejected (expected URL {:?})", url), input.clone());
+        }
+    }
 }
 
 /// `\u{XXXX}` escapes in corpus files
